@@ -348,3 +348,35 @@ package ddsketch
 //@   trusted the store provider is a caller-supplied function value (its contract: a fresh, empty store satisfying the store invariant); covered by the bounded stand-in decode-roundtrip
 //@   bounded decode-roundtrip
 //@   ensures result != nil
+
+// Exact variant: the statistics blocks are folded into the statistics (count and sum are added, min/max folded
+// with weight 0); a sketch with content but no statistics is refused.
+//@ func DDSketchWithExactSummaryStatistics.DecodeAndMergeWith
+//@   serves C08 C10 C06
+//@   requires s != nil && s.DDSketch != nil && s.summaryStatistics != nil && KInvM(s.DDSketch) && stat.SSInv(s.summaryStatistics)
+//@   ensures KInvM(s.DDSketch) && stat.SSInv(s.summaryStatistics) && s.DDSketch == old(s.DDSketch) && s.summaryStatistics == old(s.summaryStatistics)
+//@   ensures complete: result == nil ==> s.DDSketch.IndexMapping != nil && (s.summaryStatistics.count != 0.0 || KCount(s.DDSketch) == 0.0)
+//@   modifies everything()
+//@   foreach 1 invariant s != nil && s.DDSketch == old(s.DDSketch) && s.summaryStatistics == old(s.summaryStatistics) && s.summaryStatistics != nil && stat.SSInv(s.summaryStatistics)
+//@   after encoding.DecodeVarfloat64#1 assume $result1 == nil ==> finite($result)
+//@   after encoding.DecodeFloat64LE#1 assume $result1 == nil ==> finite($result)
+//@   after encoding.DecodeFloat64LE#2 assume $result1 == nil ==> finite($result)
+//@   hint store.STotNonneg(s.DDSketch.positiveValueStore), store.STotNonneg(s.DDSketch.negativeValueStore)
+
+// ================================================================ binary encoding
+// Encode only appends to the caller's buffer and does not change the observable state of the sketch.
+//@ func DDSketch.Encode
+//@   serves C06 C14 C07
+//@   requires KInv(s) && b != nil
+//@   ensures append-only: enc.PrefixKept(b)
+//@   ensures pure: KInv(s) && KSame(s)
+//@   ensures stable: footprintStable(s)
+//@   modifies *b, arr(*b), footprint(s)
+
+//@ func DDSketchWithExactSummaryStatistics.Encode
+//@   serves C06 C10 C14 C07
+//@   requires EInv(s) && b != nil
+//@   ensures append-only: enc.PrefixKept(b)
+//@   ensures pure: EInv(s) && ESameStats(s) && s.DDSketch == old(s.DDSketch) && KSame(s.DDSketch)
+//@   ensures stable: footprintStable(s)
+//@   modifies *b, arr(*b), footprint(s)
